@@ -18,7 +18,7 @@ RULE += (' Since round 6: a fixed list of directive- / file-name- / code-like co
 ASSUMPTIONS = [
     "no comment is placed inside the two-word tokens `not in` / `else if` (only their inner whitespace varies)",
     "block-comment bodies contain neither */ nor /* (the README claims nesting, C does not nest: documentation ambiguous)",
-    "whitespace is removed only between tokens whose adjacent characters are not both word characters",
+    "whitespace is removed only between tokens whose adjacent characters are not both word characters - except after a number, which ends where its digits end (18and, 3in)",
 ]
 SHARDS = {"quick": 1, "thorough": 16}
 
@@ -197,6 +197,16 @@ def fixed_cases():
             base + " " * 100000, "/*" + "=" * 200000 + "*/\n" + base, "".join("// 2024-%02d-%02d changed the weights of arm %d\n" % (1 + i % 12, 1 + i % 28, i) for i in range(1500)) + base,
             ("\n" * 70000).join([" ".join(toks[:7]), " ".join(toks[7:])])]
     yield {"prog": prog, "inputs": inputs, "variants": [{"text": t, "tags": ["block-comment", "many-comments"]} for t in many], "noise": None}
+    # every blank removed that can be removed: a number is directly followed by the next word (2and, 1.5or, 3in, 1weighted ...)
+    L, F, T = M.lit_int, M.lit_float, M.tup
+    pred = M.or_(M.and_(M.cmp_(I("a"), ">=", L("2")), M.cmp_(L("3"), "in", T([I("a"), L("2")]))),
+                 M.or_(M.cmp_(I("a"), "<", F("1.5")), M.and_(M.cmp_(I("a"), "==", L("7")), M.not_(M.cmp_(I("a"), "not in", T([L("7")]))))))
+    prog2 = M.program("exp", M.if_([(pred, M.ret([(L("1"), "2"), (F("2.5"), "1")])), (M.cmp_(I("a"), "!=", L("0")), M.ret([(M.lit_str("B"), "1")]))],
+                                   M.ret([(L("0"), "1"), (M.lit_str("C"), "1.5")])), salt="s", splitters=["uid"])
+    toks2 = M.program_tokens(prog2)
+    tight = gen_text.make_variant(bytes(16 + 14 * len(toks2)), toks2, "min")[0]
+    yield {"prog": prog2, "inputs": inputs, "variants": [{"text": tight, "tags": ["no-optional-whitespace"]},
+                                                          {"text": tight.replace("{", "{/**/").replace("and", "and/*x*/"), "tags": ["block-comment", "no-optional-whitespace"]}], "noise": None}
 
 
 def run(ctx, rec):
